@@ -15,7 +15,7 @@ func init() {
 	register(&Property{
 		ID:        "C40",
 		Title:     "Host protection and workload isolation hold on every packet path",
-		Technique: "static analysis: builder-chain facts of generictables.Rule literals, rule order inside append chains, constant argument tuples across sibling call sites (go/ssa over felix/rules)",
+		Technique: "static analysis: builder-chain facts of generictables.Rule literals, rule order inside append chains, constant argument tuples across sibling call sites, end-rules data flow into every dispatch Chain literal (go/ssa over felix/rules)",
 		DesignRef: "DESIGN.md §3 C40",
 		Explanation: "Decides structural clauses on the static and per-endpoint chain renderers. (tuples) at every call of endpointIptablesChain the policy prefix, profile prefix, NFLOG group, RuleDir and " +
 			"policy type all have the direction implied by the endpoint-chain prefix, and host-endpoint (non-forward) chains of every type get the failsafe chain of their direction. (failsafefirst) inside " +
@@ -26,8 +26,11 @@ func init() {
 			"evaluated under every assignment of the bool config fields gating a tunnel filter × every IP version compared, and a flag that is necessary for another tunnel's filter must be a don't-care for this one " +
 			"(independent ifs merged into a switch/else-if chain, '&& !otherTunnel' conjuncts and early exits under another tunnel's flag are reported). (unknown) INPUT sends InInterface(workload prefix+wildcard) to the workload-to-host chain before any host-endpoint accept, FORWARD " +
 			"jumps to the from-workload dispatch chain for the same match. (wl2host) the workload-to-host chain jumps unconditionally to the from-workload dispatch chain before applying the configured " +
-			"endpoint-to-host action.",
-		NotDecided: "Whole-path verdicts over all tables; contents of the dispatch chains (C10); that the kernel hooks are wired to these chains; conntrack rules and QoS rules that precede the failsafe jump by design; " +
+			"endpoint-to-host action. " +
+			"(unknowndrop, endrules — shared with C10) the dispatch chains those rules lead to drop what they do not know: every dispatch build for a workload prefix is given exactly one unconditional deny as end rules, " +
+			"the dispatcher hands its end-rules parameter to both the prefix-tree and the nftables verdict-map builder, and every Chain literal either builder constructs stores Rules = append(…, endRules...) " +
+			"(a chain built from the slice before the append loses the drop and unmatched packets RETURN to INPUT/FORWARD).",
+		NotDecided: "Whole-path verdicts over all tables; the per-interface contents of the dispatch chains (C10: leaf rules, prefix tree, verdict-map members); that the kernel hooks are wired to these chains; conntrack rules and QoS rules that precede the failsafe jump by design; " +
 			"BPF-mode chains.",
 		Assumptions: []string{
 			"go/types + go/ssa (x/tools v0.50.0) model of the current source, CGO_ENABLED=0 build",
@@ -78,6 +81,18 @@ func init() {
 				New: "\tinputRules = append(inputRules, r.acceptAlreadyAccepted()...)\n\tfor _, prefix := range r.WorkloadIfacePrefixes {\n\t\tifaceMatch := prefix + r.wildcard\n\t\tinputRules = append(inputRules, generictables.Rule{\n\t\t\tMatch:  r.NewMatch().InInterface(ifaceMatch),\n\t\t\tAction: r.GoTo(ChainWorkloadToHost),\n\t\t})\n\t}\n", Expect: "C40.unknown/input"},
 			{Name: "FORWARD from-workload jump only for tcp", File: "felix/rules/static.go",
 				Old: "\t\t\t\tMatch:  r.NewMatch().InInterface(ifaceMatch),\n\t\t\t\tAction: r.Jump(ChainFromWorkloadDispatch),", New: "\t\t\t\tMatch:  r.NewMatch().InInterface(ifaceMatch).Protocol(\"tcp\"),\n\t\t\t\tAction: r.Jump(ChainFromWorkloadDispatch),", Expect: "C40.unknown/forward"},
+			{Name: "nftables root dispatch chain built from the rule slice before the end rules are appended (seeded C40-4 shape)", File: "felix/rules/dispatch.go",
+				Old: "\tlog.Debug(\"Adding end rules at end of root chain\")\n\trootRules = append(rootRules, endRules...)\n\n\trootChain := &generictables.Chain{\n\t\tName:  chainName,\n\t\tRules: rootRules,\n\t}\n\treturn nil, rootChain, rootRules",
+				New: "\trootChain := &generictables.Chain{\n\t\tName:  chainName,\n\t\tRules: rootRules,\n\t}\n\trootRules = append(rootRules, endRules...)\n\treturn nil, rootChain, rootRules", Expect: "C40.endrules/DefaultRuleRenderer.buildSingleDispatchChainsVMAP/root"},
+			{Name: "iptables child dispatch chains lose the unknown-interface drop", File: "felix/rules/dispatch.go",
+				Old: "\t\t\tchildEndpointRules = append(childEndpointRules, endRules...)\n", New: "", Expect: "C40.endrules/DefaultRuleRenderer.buildSingleDispatchChainTree/child"},
+			{Name: "dispatcher drops the end rules on the verdict-map path", File: "felix/rules/dispatch.go",
+				Old: "\t\t\tchainName,\n\t\t\tendpointPfx,\n\t\t\tendRules,\n\t\t)", New: "\t\t\tchainName,\n\t\t\tendpointPfx,\n\t\t\tnil,\n\t\t)", Expect: "C40.endrules/DefaultRuleRenderer.buildSingleDispatchChains/pass-vmap"},
+			{Name: "unknown workload interface RETURNs to INPUT/FORWARD instead of being dropped", File: "felix/rules/dispatch.go",
+				Old: "\tendRules := []generictables.Rule{\n\t\t{\n\t\t\tMatch:   r.NewMatch(),\n\t\t\tAction:  r.IptablesFilterDenyAction(),\n\t\t\tComment: []string{\"Unknown interface\"},\n\t\t},\n\t}\n\treturn r.interfaceNameDispatchChains(",
+				New: "\tendRules := []generictables.Rule{\n\t\t{\n\t\t\tMatch:   r.NewMatch(),\n\t\t\tAction:  r.Return(),\n\t\t\tComment: []string{\"Unknown interface\"},\n\t\t},\n\t}\n\treturn r.interfaceNameDispatchChains(", Expect: "C40.unknowndrop/DefaultRuleRenderer.WorkloadDispatchChains"},
+			{Name: "to-workload dispatch chain gets no unknown-interface drop", File: "felix/rules/dispatch.go",
+				Old: "\t\tChainToWorkloadDispatch,\n\t\tendRules,\n\t\tendRules,\n\t)", New: "\t\tChainToWorkloadDispatch,\n\t\tendRules,\n\t\tnil,\n\t)", Expect: "C40.unknowndrop/DefaultRuleRenderer.WorkloadDispatchChains/WorkloadToEndpointPfx"},
 			{Name: "endpoint-to-host action applied before workload egress policy", File: "felix/rules/static.go",
 				Old: "\t// Now send traffic to the policy chains to apply the egress policy.\n\trules = append(rules, generictables.Rule{\n\t\tAction: r.Jump(ChainFromWorkloadDispatch),\n\t})\n\n\t// If the dispatch chain accepts the packet, it returns to us here.  Apply the configured\n\t// action.  Note: we may have done work above to allow the packet and then end up dropping\n\t// it here.  We can't optimize that away because there may be other rules (such as log\n\t// rules in the policy).\n\tfor _, action := range r.inputAcceptActions {\n\t\trules = append(rules, generictables.Rule{\n\t\t\tAction:  action,\n\t\t\tComment: []string{\"Configured DefaultEndpointToHostAction\"},\n\t\t})\n\t}\n",
 				New: "\tfor _, action := range r.inputAcceptActions {\n\t\trules = append(rules, generictables.Rule{\n\t\t\tAction:  action,\n\t\t\tComment: []string{\"Configured DefaultEndpointToHostAction\"},\n\t\t})\n\t}\n\trules = append(rules, generictables.Rule{\n\t\tAction: r.Jump(ChainFromWorkloadDispatch),\n\t})\n", Expect: "C40.wl2host/order"},
@@ -150,6 +165,8 @@ func runC40(c *Ctx) {
 	c.Rule("C40.tunnel", "E-CONST/E-ORDER", "filterInputChain: each allow-from-host-set tunnel rule is immediately followed by a deny with the same match minus the source set; only tunnel rules precede them", 4)
 	c.Rule("C40.tunnelindep", "E-GUARD", "filterInputChain: whether a tunnel filter pair (IPIP, IPv4 VXLAN, IPv6 VXLAN) is rendered depends only on its own enable flag and the IP version: for every IP version and every assignment of the tunnel enable flags, flipping a flag that enables ANOTHER tunnel's filter never changes whether this one is rendered", 3)
 	c.Rule("C40.unknown", "E-CONST/E-ORDER", "INPUT: InInterface(workload prefix+wildcard) → GoTo(workload-to-host chain) before any host-endpoint accept; FORWARD: same match → Jump(from-workload dispatch)", 2)
+	c.Rule("C40.endrules", "E-FLOW", "the dispatch chains the INPUT/FORWARD workload rules send packets to really end in the caller's end rules (the unknown-interface drop): every generictables.Chain literal built by buildSingleDispatchChainTree/VMAP stores Rules = append(…, endRules-parameter...), and the dispatcher hands its own end-rules parameter to both builders (shared with C10: c10Model.deriveRoles/checkEndRules)", 5)
+	c.Rule("C40.unknowndrop", "E-CONST", "every dispatch build for a workload endpoint prefix (from-workload, to-workload, special-allow) is given end rules that are exactly one unconditional IptablesFilterDenyAction rule (shared with C10: c10Model.unknownDrop)", 3)
 	c.Rule("C40.wl2host", "E-ORDER", "workload-to-host chain: unconditional Jump(from-workload dispatch) placed before the configured endpoint-to-host action rules", 2)
 
 	m.checkFailsafeFirst() // before checkTuples: that one loses its failsafe-role anchor when the jump is gone
@@ -159,6 +176,7 @@ func runC40(c *Ctx) {
 	m.checkTunnelIndep()
 	m.checkUnknown()
 	m.checkWl2Host()
+	m.checkDispatchDrop()
 }
 
 // ------------------------------------------------------------------ tuples --
@@ -1209,4 +1227,50 @@ func (m *c40Model) checkWl2Host() {
 		}
 	}
 	c.Check2("C40.wl2host/order/"+fnName(fn), p.Pos(j.Pos()), msg)
+}
+
+// ------------------------------------------------------------ dispatch drop --
+
+// checkDispatchDrop arms, under C40's id, the two clauses of C10 that make
+// "traffic on a workload interface Felix does not know is dropped" true once
+// C40.unknown has sent the packet to the dispatch chain: the dispatch builds for
+// workload prefixes are given a single unconditional deny as end rules
+// (unknowndrop), and every chain the tree / verdict-map builders construct
+// really carries those end rules (endrules) — a chain literal built from the
+// rule slice before the end rules are appended lets unmatched packets fall off
+// the chain and RETURN to INPUT/FORWARD.
+func (m *c40Model) checkDispatchDrop() {
+	c, p := m.c, m.p
+	m10 := &c10Model{c: c, p: p, funcs: m.funcs, lits: m.lits}
+	m10.tree = c10MustFunc(c, p, c10RulesPkg, "DefaultRuleRenderer.buildSingleDispatchChainTree")
+	m10.vmap = c10MustFunc(c, p, c10RulesPkg, "DefaultRuleRenderer.buildSingleDispatchChainsVMAP")
+	m10.disp = c10MustFunc(c, p, c10RulesPkg, "DefaultRuleRenderer.buildSingleDispatchChains")
+	m10.pfxByValue = map[string]string{}
+	for name := range c10DirTable {
+		m10.pfxByValue[c10ConstStr(c, p, c10RulesPkg, name)] = name
+	}
+	c.Alias("C10.endrules", "C40.endrules", func() {
+		m10.deriveRoles()
+		m10.checkEndRules()
+	})
+	builds := m10.builds()
+	if len(builds) == 0 {
+		c.Lost("no call of %s", fnName(m10.disp))
+	}
+	for _, b := range builds {
+		site := p.Pos(b.site.Instr.Pos())
+		if len(b.chain) > 0 {
+			site = p.Pos(b.chain[len(b.chain)-1].Instr.Pos())
+		}
+		pfxVal, ok := c10StrConst(b.vals["pfx"])
+		if !ok {
+			c.Undecided("C40.unknowndrop/"+fnName(b.outer())+"/unresolved", site, "endpoint prefix of a dispatch build does not resolve to a constant (%s)", path(b.vals["pfx"]))
+			continue
+		}
+		pfxName, known := m10.pfxByValue[pfxVal]
+		if pfxVal == "" || !known || c10DirTable[pfxName].Class != "workload" {
+			continue // dead build / host and mark prefixes: C10
+		}
+		c.Check2(fmt.Sprintf("C40.unknowndrop/%s/%s", fnName(b.outer()), pfxName), site, m10.unknownDrop(b.vals["endRules"], b.owner["endRules"], m.deny))
+	}
 }
